@@ -303,12 +303,12 @@ pub fn run(ctx: &mut Ctx) {
     let execs = Cell::new(0u64);
     let progs = [AProg::AtomicCounter, AProg::KeyedCounter];
 
-    let strat_ex = (0..2usize, phase_strategy(3, 4)).prop_map(move |(p, phases)| ACase {
+    let strat_ex = (0..2usize, phase_strategy(3, tier.pick(4, 5))).prop_map(move |(p, phases)| ACase {
         prog: progs[p],
         phases,
         tape: None,
     });
-    ctx.check("atomic-exhaustive", tier.pick(120, 2500), strat_ex, |c: &ACase, obs: &mut Obs| {
+    ctx.check("atomic-exhaustive", tier.pick(500, 6000), strat_ex, |c: &ACase, obs: &mut Obs| {
         obs.class(format!("prog:{}", c.prog.name()));
         let nt = check_case(&built, c, &execs)?;
         obs.nontrivial(nt);
@@ -324,7 +324,7 @@ pub fn run(ctx: &mut Ctx) {
             phases,
             tape: Some(tape),
         });
-    ctx.check("atomic-tapes", tier.pick(400, 10000), strat_tape, |c: &ACase, obs: &mut Obs| {
+    ctx.check("atomic-tapes", tier.pick(3000, 80000), strat_tape, |c: &ACase, obs: &mut Obs| {
         obs.class(format!("prog:{}", c.prog.name()));
         let nt = check_case(&built, c, &execs)?;
         obs.nontrivial(nt);
